@@ -731,6 +731,7 @@ class CallMixin:
         for pn_, ps_ in (getattr(c, 'params', None) or {}).items():
             if isinstance(ps_, api.Fn):
                 names['fn_' + (ps_.fname or pn_)] = VFn(ps_.fname or pn_, ps_)
+        names['isinst'] = Builtin('isinst', lambda a, k, n, f: self.isinst(a[0], a[1], n))
         names['fs_exists'] = Builtin('fs_exists', lambda a, k, n, f: self.ufun('fs_exists', STR, z3.BoolSort())(self.zs.lift(a[0], STR)))
         names['fs_content'] = Builtin('fs_content', lambda a, k, n, f: self.ufun('fs_content', STR, STR)(self.zs.lift(a[0], STR)))
         names['re_match'] = Builtin('re_match', lambda a, k, n, f: self.re_syms(a[0], a[2] if len(a) > 2 else 'match')[1](self.zs.lift(a[1], STR)))
